@@ -18,6 +18,11 @@ def main():
 
         resume_main()
         return 0
+    if len(sys.argv) > 1 and sys.argv[1] == "_exprfresh":
+        from sim.engine_exprfresh import child_main
+
+        child_main()
+        return 0
     ap = argparse.ArgumentParser()
     ap.add_argument("prop")
     ap.add_argument("--tier", default=os.environ.get("VERIF_TIER", "quick"), choices=["quick", "thorough"])
